@@ -442,6 +442,37 @@ Definition opened_model (path topdir : option bytes) (env : envt) (run2d : bytes
   | Some l => Some (opened_spplate l run2d reqs)
   end.
 
+(* ------------------------------------------------------------------ a call that RETURNS although S is undefined (S) *)
+
+(* The first sentence of the property judges every returned answer, also when some request has no file / no row / the files
+   differ in what they hold (then spec_readspec is None and makes no claim about errors): every returned array has exactly
+   one row per request, and row i is the row of request i -- zero-padded on the right for images -- wherever request i has
+   a file, that file has the HDU / column, and the fibre is one of its rows.  Independent of M and of Generated. *)
+Definition row_belongs (w : what) (own got : list Z) : bool :=
+  if padded w then
+    (length own <=? length got)%nat && eqb_listZ (firstn (length own) got) own &&
+    forallb (fun v => v =? 0) (skipn (length own) got)
+  else eqb_listZ got own.
+
+Definition rows_belong (sv : survey) (reqs : list req) (w : what) (a : img) : bool :=
+  Nat.eqb (length a) (length reqs) &&
+  forallb (fun ra => match spec_row sv w (fst ra) with
+                     | None => true
+                     | Some own => row_belongs w own (snd ra)
+                     end) (combine reqs a).
+
+(* the outputs named after the first request that HAS a file (outputs uses the first request) *)
+Definition outputs_any (sv : survey) (reqs : list req) (znum : option Z) : list what :=
+  match filter (fun r => match find_file sv (r_plate r) (r_mjd r) with Some _ => true | None => false end) reqs with
+  | [] => []
+  | r :: _ => outputs sv [r] znum
+  end.
+
+Definition partial_ok (sv : survey) (reqs : list req) (znum : option Z) (out : list img) : bool :=
+  let ws := outputs_any sv reqs znum in
+  Nat.eqb (length out) (length ws) &&
+  forallb (fun wa => rows_belong sv reqs (fst wa) (snd wa)) (combine ws out).
+
 Inductive case :=
   (* one readspec call: conventions as passed, the request list as the harness understands it
      (None = the harness expects an error from the calling convention), observed output (None = exception) *)
@@ -455,6 +486,10 @@ Inductive case :=
   (* the spPlate files one readspec call opened (observed by wrapping fits.open), as lists of path components *)
 | CFiles (path topdir : option bytes) (env : envt) (run2d : bytes) (reqs : list req) (expect : option (list img))
 | CAppend (a b : img) (pixshift : Z) (expect : option img)
+  (* one readspec call on a tree whose files differ in what they hold (a plate-MJD without spZbest / spZall / photoPlate file,
+     a truncated spPlate file) or with requests that have no file: the returned arrays, each with the output it claims to be.
+     No claim when the call raises; a returned answer is judged by rows_belong *)
+| CReadPartial (sv : survey) (reqs : list req) (expect : option (list (what * img)))
   (* one typed index expression of readspec (the gen_t definitions of Generated.Readspec) evaluated by NumPy itself on one-element arrays of
      the stated storage types: value and dtype of the result, or OverflowError *)
 | CTyped (e : pexpr) (env : list (option ity * Z)) (expect : pres).
@@ -468,7 +503,11 @@ Definition run_case (c : case) : Z :=
         match reqs with
         | None => false
         | Some rq => match readspec_S sv rq znum with
-                     | None => false              (* invalid request (no file, no such fiber): no claim *)
+                     | None =>                    (* invalid request (no file, no such fiber): no claim that it raises, *)
+                         match expect with        (* but an answer that IS returned must still be request by request *)
+                         | None => false
+                         | Some out => negb (partial_ok sv rq znum out)
+                         end
                      | Some s => negb (eqb_oimgs (Some s) expect)
                      end
         end in
@@ -479,7 +518,7 @@ Definition run_case (c : case) : Z :=
         match reqs with
         | None => false
         | Some rq => match readspec_S sv rq znum with
-                     | None => false
+                     | None => match expect with None => false | Some out => negb (partial_ok sv rq znum out) end
                      | Some s => negb (eqb_oimgs (Some s) expect)
                      end
         end in
@@ -491,6 +530,11 @@ Definition run_case (c : case) : Z :=
   | CAppend a b s expect =>
       (if eqb_oimg (Some (spec_append a b s)) expect then 0 else 1) +
       (if eqb_oimg (Some (spec_append_S a b s)) expect then 0 else 2)
+  | CReadPartial sv reqs expect =>
+      match expect with
+      | None => 0
+      | Some outs => if forallb (fun wa => rows_belong sv reqs (fst wa) (snd wa)) outs then 0 else 2
+      end
   | CTyped e env expect =>
       match peval env e with
       | PUnmodelled => 0                       (* mixed array types: NumPy promotion is not modelled, no claim *)
